@@ -17,7 +17,7 @@ def register(OPS, drv):
         r = drv.serve_once(w.config, data, tls=tls)
         return data, r
 
-    def links_of(proto, resp, server_name="gopher.example", server_port=None):
+    def links_of(proto, resp, server_name="gopher.example", server_port=None, follow_urls=False):
         server_port = drv.SERVER_PORT if server_port is None else server_port
         """-> list of (selector_bytes or None, advertised_type or None, raw link info)"""
         out = []
@@ -37,7 +37,13 @@ def register(OPS, drv):
                 if m["type"] == "i":
                     continue
                 local = m["host"] == server_name.encode() and m["port"] == server_port
-                if local and not m["selector"].startswith((b"URL:", b"/URL:")):
+                is_url = m["selector"].startswith((b"URL:", b"/URL:"))
+                # a URL: item that names this server's own host and port is a local link too: the client
+                # sends the selector back and expects the redirect page (followed on request only: other
+                # users of the crawl compare page sets)
+                # (only URLs with an authority part, scheme://...: the redirect handler is documented as serving web
+                # links; an item such as URL:mailto:x is content the server never claimed to serve)
+                if local and ((follow_urls and b"://" in m["selector"]) or not is_url):
                     out.append((m["selector"], m["type"]))
         elif proto in ("http", "https"):
             for row in V.html_rows(body):
@@ -60,9 +66,8 @@ def register(OPS, drv):
                     out.append((V.unquote_to_selector(href), t))
         return out
 
-    def op_crawl(job):
-        w = drv.World(job)
-        try:
+    def crawl_world(w, job):
+        if True:
             pages = []
             for proto in job["protos"]:
                 seen = set()
@@ -100,13 +105,75 @@ def register(OPS, drv):
                                   "request": drv.b2s(data), "out": r["out"], "exc": r["exc"], "log": r["log"]})
                     is_menu_type = typ in ("1", None)
                     if typ == "1" or (typ is None):
-                        for (s2, t2) in links_of(proto, out):
+                        for (s2, t2) in links_of(proto, out, follow_urls=bool(job.get("follow_url_links"))):
                             if s2 not in seen:
                                 queue.append((s2, t2, drv.b2s(sel)))
-            return {"root": w.root, "pages": pages}
+            return pages
+
+
+    def op_crawl(job):
+        w = drv.World(job)
+        try:
+            return {"root": w.root, "pages": crawl_world(w, job)}
         finally:
             w.close()
 
+    def age_tree(root, seconds):
+        """Advance the clock by `seconds` as seen from every timestamp in the tree: all mtimes (files,
+        directories, cache files) move into the past by the same amount, so every age and every ORDER
+        between two timestamps is what it would be after a real wait."""
+        paths = []
+        for r, dirs, files in os.walk(root):
+            paths.append(r)
+            for fn in files:
+                paths.append(os.path.join(r, fn))
+        d = int(seconds) * 10 ** 9
+        for p_ in paths:
+            try:
+                st = os.lstat(p_)
+                os.utime(p_, ns=(st.st_atime_ns - d, st.st_mtime_ns - d), follow_symlinks=False)
+            except OSError:
+                pass
+
+    def op_crawl_stages(job):
+        """One world, several stages; each stage applies maintenance actions to the served tree (what an
+        administrator does between two visits) and may then crawl it from / in every protocol.
+        actions: {"do": "rename", "src", "dst"} (os.rename: the moved directory keeps its own mtime),
+                 {"do": "copytree", "src", "dst"} (timestamps preserved, like cp -a / rsync -a),
+                 {"do": "age", "seconds"} (let time pass), {"do": "write", "path", "data"}, {"do": "remove", "path"}.
+        Paths are latin-1 strings standing for raw bytes, relative to the root."""
+        import shutil
+        w = drv.World(job)
+        broot = os.fsencode(w.root)
+
+        def P(rel):
+            return os.path.join(broot, drv.s2b(rel).lstrip(b"/"))
+
+        try:
+            out = []
+            for st in job["stages"]:
+                for a in st.get("actions", []):
+                    k = a["do"]
+                    if k == "rename":
+                        os.makedirs(os.path.dirname(P(a["dst"])), exist_ok=True)
+                        os.rename(P(a["src"]), P(a["dst"]))
+                    elif k == "copytree":
+                        shutil.copytree(P(a["src"]), P(a["dst"]), symlinks=True)
+                    elif k == "age":
+                        age_tree(w.root, a["seconds"])
+                    elif k == "write":
+                        with open(P(a["path"]), "wb") as f:
+                            f.write(drv.s2b(a["data"]))
+                    elif k == "remove":
+                        os.remove(P(a["path"]))
+                    else:
+                        raise ValueError("unknown action " + k)
+                out.append({"name": st.get("name"), "pages": crawl_world(w, job) if st.get("crawl") else None})
+            return {"root": w.root, "stages": out}
+        finally:
+            w.close()
+
+    OPS["crawl_stages"] = op_crawl_stages
     OPS["crawl"] = op_crawl
 
 
